@@ -442,6 +442,31 @@ def probe_earlier_raise(ctx):
                     ctx.cell('documented-exception-under-a-non-expression-passes')
 
 
+def probe_output_before_exception(ctx):
+    """text printed before an expected exception belongs to the time before that want: a later want cannot claim it
+    (finding F43); the later statement's own output still can be wanted"""
+    from xdoctest import doctest_example
+    head = ['>>> print("early")', '>>> raise ValueError("same")', 'Traceback (most recent call last):', 'ValueError: same',
+            '>>> quiet(1)', '>>> print("late")']
+    for tail, expect in ((['early', 'late'], 'failed'), (['late'], 'passed'), (['...', 'late'], 'passed')):
+        for on_its_own_part in (False, True):
+            L = list(head)
+            if on_its_own_part:
+                L.insert(1, '')     # the printing statement in a part of its own
+                L.insert(2, 'some prose')
+                L.insert(3, '')
+            doc = '\n'.join(L + tail)
+            ctx.evaluation()
+            rec = harness.run_doctest(doctest_example.DocTest(doc), extra_ns=extra_ns())
+            got = 'raised' if rec.raised is not None else harness.outcome(rec.summary)
+            if got != expect or rec.T != [1]:
+                ctx.violation('stale-output-after-exception', 'output printed before an expected exception and a later want %r: '
+                              'expected %s with event log [1], observed %s, event log %r\n%s' % (tail, expect, got, rec.T, doc),
+                              {'probe': 'output-before-exception', 'doc': doc})
+            else:
+                ctx.cell('output-before-exception:' + expect)
+
+
 def required_cells(tier):
     cells = []
     for wf in WANTS:
@@ -452,7 +477,7 @@ def required_cells(tier):
     cells += ['on_error:return', 'on_error:raise']
     cells += ['outcome-exception:' + n for n, _ in OUTCOME_RAISERS]
     cells += ['earlier-raise-fails-as-it-should', 'documented-exception-under-a-non-expression-passes',
-              'earlier-raise-behind-a-directive']
+              'earlier-raise-behind-a-directive', 'output-before-exception:failed', 'output-before-exception:passed']
     return cells
 
 
@@ -524,6 +549,8 @@ def run_shard(ctx):
         probe_outcome_exceptions(ctx)
     if ctx.shard == 2 % ctx.nshards:
         probe_earlier_raise(ctx)
+    if ctx.shard == 3 % ctx.nshards:
+        probe_output_before_exception(ctx)
 
 
 def replay(case, ctx):
@@ -538,6 +565,9 @@ def replay(case, ctx):
         return
     if case.get('probe') == 'earlier-raise':
         probe_earlier_raise(ctx)
+        return
+    if case.get('probe') == 'output-before-exception':
+        probe_output_before_exception(ctx)
         return
     run_cell(ctx, case['kind'], case['msg'], case['pos'], case['want_form'], tuple(case['flags']), case['ctxno'],
              case['on_error'])
